@@ -57,6 +57,35 @@ claim('C09', 'exploration', 'exhaustive enumeration of DA layouts x fetch-outcom
       'Trusted: synctest; DA double; the harness drains the sync input channels instead of SyncLoop; in-call retries and early return on a future height are accepted behaviours.',
       'DESIGN.md section 5 C09', 'explore')
 
+claim('C07', 'model_checking', 'stateless exploration of real goroutine interleavings under a cooperative scheduler (gates at every environment call, synctest quiescence), DA faults, crash points and clean restarts, deviation-bounded',
+      'Sequencer part: the real production step, HeaderSubmissionLoop, DataSubmissionLoop and DAIncluderLoop run as threads of a cooperative scheduler inside a synctest bubble (exactly one thread runs between two environment calls; the explorer picks who continues, delay-bounded), with DA answers, crash points before every Submit and every durable write, and clean restarts; full-node part: RetrieveLoop, SyncLoop, DAIncluderLoop and both P2P loops likewise, with every bounded deviation from the canonical placement of the genuine blobs on 3 DA heights, gated sends into the sync loop (consumer-idle rule). After every DA block: reported height monotone (also across restarts), not above the chain height, finalize calls in order and before reporting, reported >= h only if header(h) and non-empty data(h) are on the DA double, recorded DA heights name heights where the blobs really are; at the end everything on the DA layer must be reported.',
+      'Trusted: synctest; scheduling granularity = environment calls (datastore, DA, executor), plain memory accesses between two calls are atomic; Go\'s random select choice at a stop instant is frozen out (a cancelled process consumes no decision point); bounds: <=2 (quick) / 3 (thorough) deviations in total.',
+      'DESIGN.md section 5 C07', 'explore+sched')
+claim('C12', 'exploration', 'bounded-exhaustive enumeration of wire values (cross products, pairs/triples of field variations), golden vectors, and all short byte strings / prefixes / single-byte substitutions for every decoder',
+      'Value round trips for every wire type over small field domains (full cross product for small types, pairwise/triple variations for headers) through the store, DA and cache-file paths; golden byte/hash vectors generated from the pinned tree compared verbatim; every decoder on all byte strings of length <=2/3 and on every prefix and single-byte substitution of every golden encoding (no panic, re-encode/decode fixed point).',
+      'Trusted: protobuf/gob libraries; golden file /verif/golden/c12.json generated once from the pinned tree; small field domains.',
+      'DESIGN.md section 5 C12', 'enumeration')
+claim('C15', 'model_checking', 'explicit-state BFS over interleavings of block execution and extra calls on two real KVExecutor instances against a map reference',
+      'Two real KVExecutor instances on logging datastores execute the same block sequences (<=3/4 blocks from a 10-13 block alphabet incl. malformed, empty-key and reserved-key transactions) with every interleaving of <=2/3 extra calls per instance (SetFinal, InjectTx, GetTxs, InitChain again, reopen, re-execute); after every block both roots must equal the map reference; malformed blocks must be atomic; re-execution and repeated InitChain must change nothing.',
+      'Trusted: datastore double; constructor hook exposing an injected datastore; mempool capacity reduced to 16 for speed.',
+      'DESIGN.md section 5 C15', 'bfs')
+claim('C16', 'exploration', 'bounded-exhaustive differential enumeration of call sequences (blob-size lists around the limit x heights x injected errors) between a direct and a JSON-RPC-proxied instance of the same DA',
+      'Every sequence of <=2/3 SubmitWithHelpers/RetrieveWithHelpers calls over all blob lists of length <=3 with sizes {0,1,limit-1,limit,limit+1}, heights {empty, populated, future} and every injected DA error (bare and wrapped) is executed against a backing DA double directly and through a real jsonrpc server/client pair on loopback; status code, submitted count, ids and blobs must agree call by call, and the backing store must hold exactly the longest fitting prefix.',
+      'Trusted: loopback TCP; backing DA double (DummyDA-compatible) with error injection; messages are not compared.',
+      'DESIGN.md section 5 C16', 'enumeration')
+claim('C18', 'exploration', 'bounded-exhaustive enumeration over every reflected config leaf and registered flag (presence x values), leaf pairs for save/load, genesis shapes',
+      'Every leaf of config.Config and every flag registered by AddFlags/AddGlobalFlags (both found by reflection) is enumerated over presence {default, file, flag, file+flag} and the values of its type through three loading paths; the precedence function flag > file > default is the oracle and no other leaf may change; every single leaf, leaf pair and all leaves at once for save->load; genesis save/load over ids, heights, times, addresses and all invalid shapes.',
+      'Trusted: cobra/viper/yaml libraries; hermetic temp homes; exemptions justified from the code (home -> RootDir, signer passphrase read by the commands).',
+      'DESIGN.md section 5 C18', 'enumeration')
+claim('C19', 'fault_enumeration', 'bounded-exhaustive enumeration of passphrase pairs and of every truncation and single-byte substitution of the key file (modern and legacy formats)',
+      'All ordered (save, load) pairs of 8 passphrases on created and harness-written legacy files; every truncation length and every (position, replacement byte) of signer.json (8 representative bytes quick, up to all 255 thorough) loaded and exported with the right passphrase; export->import->load round trips. A successful load must yield a signer whose signature verifies under the key it reports, equal to the original, with the address full nodes derive; wrong passphrases and corrupt files must be refused without panic.',
+      'Trusted: Argon2/AES-GCM/ed25519 as functions; deterministic randomness via testing/cryptotest; legacy file written through a hook exposing the unexported fallback derivation.',
+      'DESIGN.md section 5 C19', 'enumeration')
+claim('C20', 'model_checking', 'explicit-state BFS per configuration over next/tip-grows/retrieval-error/restart histories of the real based sequencer against the flat DA-order reference',
+      'For every DA content configuration (3/4 heights, 0-3 transactions of sizes {1,2,4} per height, bounded total), size limit {1,2,3,5,8,default} and drift {0,1,2}, every history of depth 6/8 over {GetNextBatch with the previous answer as cursor, DA tip grows, retrieval error injected, restart} runs on the real based.Sequencer over the logging datastore and a DA double; the concatenated answers must be a duplicate-free, order-preserving, omission-free subsequence of the DA contents, within the size limit, with carry-over first, and identical with and without restarts.',
+      'Trusted: datastore and DA doubles; a limit smaller than one transaction may leave the sequencer stuck (not a violation of the stated clauses); the (nil,nil) answer is counted, not judged.',
+      'DESIGN.md section 5 C20', 'bfs')
+
 NOT_YET = "check not built yet in this session (work in progress, see DESIGN.md section 10 for the order of work)"
 
 checks = []
